@@ -51,6 +51,8 @@ def gen_cases(seed, tier):
             'dmax': 5 if tier == 'quick' else 7})
     for j in range(60 if tier == 'quick' else 2000):
         out.append({'kind': 'cancel', 'seed': int(rng.integers(1 << 62))})
+    for j in range(40 if tier == 'quick' else 1500):
+        out.append({'kind': 'widebond', 'seed': int(rng.integers(1 << 62))})
     for j in range(na):
         out.append({'kind': 'add_many', 'seed': int(rng.integers(1 << 62)),
             'trunc_freq': [1, 2, 15][j % 3]})
@@ -469,9 +471,46 @@ def run_cancel(case, ctx):
     ctx.event('cancelling-inputs')
 
 
+def run_widebond(case, ctx):
+    """A bond of rank 32..56 with a few dominant singular values and a long
+    flat tail, a finite cap well above the rank that is needed, and e placed so
+    that the needed rank depends on the energy of the WHOLE tail (every call is
+    judged by the interposed monitor)."""
+    import teneva
+    rng = np.random.default_rng(case['seed'])
+    R = int(rng.integers(32, 57))
+    n1, n2 = int(rng.integers(R, 70)), int(rng.integers(R, 70))
+    q0 = int(rng.integers(1, 5))
+    t = float(10.0 ** rng.uniform(-3, -1.3))
+    sv = np.concatenate([np.geomspace(1., 0.3, q0), np.full(R - q0, t)])
+    U, _ = np.linalg.qr(rng.normal(size=(n1, R)))
+    W, _ = np.linalg.qr(rng.normal(size=(n2, R)))
+    cap = int(rng.integers(q0 + 4, R // 2 + 1))
+    qs = int(rng.integers(q0 + 1, cap - 1))         # the rank that is needed
+    e = t * np.sqrt(R - qs + 0.5) / float(np.sqrt(np.sum(sv ** 2)))
+    if rng.random() < 0.4:
+        # the same bond inside a longer train (d = 3)
+        m = int(rng.integers(2, 4))
+        n1 = (n1 // m) * m
+        U = U[:n1]
+        Q, Rm = np.linalg.qr(U.reshape(n1 // m, m * R))
+        k = Q.shape[1]
+        Y = [Q.reshape(1, n1 // m, k), Rm.reshape(k, m, R),
+            (W * sv).T.reshape(R, n2, 1)]
+    else:
+        Y = [U.reshape(1, n1, R), (W * sv).T.reshape(R, n2, 1)]
+    for is_eigh in (True, False):
+        for stab in (False, True):
+            teneva.truncate(Y, e, cap, True, stab, is_eigh)
+    teneva.truncate(Y, e, float(cap), is_eigh=True)
+    ctx.event('wide-bond-flat-tail-finite-cap')
+
+
 def run_case(case, ctx):
     if case['kind'] == 'cancel':
         return run_cancel(case, ctx)
+    if case['kind'] == 'widebond':
+        return run_widebond(case, ctx)
     if case['kind'] == 'trunc':
         run_trunc(case, ctx)
     else:
